@@ -3982,7 +3982,7 @@ class ControlConnection(object):
                 token_map[host] = tokens
 
         for old_host in self._cluster.metadata.all_hosts():
-            if old_host.endpoint.address != connection.endpoint and old_host.endpoint not in found_hosts:
+            if old_host.endpoint != connection.endpoint and old_host.endpoint not in found_hosts:
                 should_rebuild_token_map = True
                 log.debug("[control connection] Removing host not found in peers metadata: %r", old_host)
                 self._cluster.remove_host(old_host)
